@@ -28,29 +28,36 @@ pub enum Pos {
     ZeroFrame { at: usize },
 }
 
-/// Split a delivered prefix into the complete messages it contains and the position it ends at.
-pub fn parse_prefix(bytes: &[u8]) -> (Vec<Vec<u8>>, Pos) {
-    let mut msgs = vec![];
+/// Body ranges (start, length) of the complete frames in a delivered prefix and the position the
+/// prefix ends at.
+pub fn frames(bytes: &[u8]) -> (Vec<(usize, usize)>, Pos) {
+    let mut out = vec![];
     let mut p = 0usize;
     loop {
         let rest = bytes.len() - p;
         if rest == 0 {
-            return (msgs, Pos::Boundary);
+            return (out, Pos::Boundary);
         }
         if rest == 1 {
-            return (msgs, Pos::InLength);
+            return (out, Pos::InLength);
         }
         let need = ((bytes[p] as usize) << 8) | bytes[p + 1] as usize;
         if need == 0 {
-            return (msgs, Pos::ZeroFrame { at: p });
+            return (out, Pos::ZeroFrame { at: p });
         }
         let have = rest - 2;
         if have < need {
-            return (msgs, Pos::InBody { need, have });
+            return (out, Pos::InBody { need, have });
         }
-        msgs.push(bytes[p + 2..p + 2 + need].to_vec());
+        out.push((p + 2, need));
         p += 2 + need;
     }
+}
+
+/// Split a delivered prefix into the complete messages it contains and the position it ends at.
+pub fn parse_prefix(bytes: &[u8]) -> (Vec<Vec<u8>>, Pos) {
+    let (fr, pos) = frames(bytes);
+    (fr.into_iter().map(|(s, n)| bytes[s..s + n].to_vec()).collect(), pos)
 }
 
 /// What the reader must report when the connection is closed after exactly `bytes`.
